@@ -39,6 +39,14 @@ def plan(tier, seed, kf_ids):
         jobs.append(Job(name, code, "sin::<%s>: for every |x| <= 200 the angle handed to the CORDIC core (observe hook after the mirror "
                         "step) is exactly m(x - k*TWO_PI) with |k| <= 32 and lies in [-pi/2, pi/2]" % al, timeout=2400,
                         inst="sin %s range reduction" % al, bounds="all operands with |x| <= 200"))
+    # single angles on every supported type (constants folded by the front end: witnesses, not quantified obligations)
+    for al in ("I9F23", "I32F32", "I16F48", "I64F64", "I40F88"):
+        f = T.TYPES[al][2]
+        for fun, x in (("sin", math.pi / 4), ("sin", 1.0), ("sin", -199.9), ("cos", math.pi / 4), ("cos", 2.5), ("sin", math.atan(1) - math.atan(0.5)), ("cos", 100.25)):
+            if f + acc.S + 2 > 126:
+                continue   # the enclosure constants are i128
+            jobs.append(acc.acc1v("c16", fun, al, int(x * (1 << f)), 0, 1 << (f - 16), 30))
+            jobs[-1].prio = 1
     return {
         "feature": "c16",
         "jobs": jobs,
